@@ -742,8 +742,9 @@ def MonteCarloSampler_param(MCsampler):
     if MCsampler.jumps is not None:
         Njumps = len(MCsampler.jumps)
         param['Njumps'] = Njumps
-        param['jump_ij'] = np.array([[i, j] for (i, j), _ in MCsampler.jumps])
-        param['jump_dx'] = np.array([dx for _, dx in MCsampler.jumps])
+        # reshape: keeps the arrays two dimensional when the jump network has no jump in this supercell
+        param['jump_ij'] = np.array([[i, j] for (i, j), _ in MCsampler.jumps], dtype=int).reshape(Njumps, 2)
+        param['jump_dx'] = np.array([dx for _, dx in MCsampler.jumps], dtype=float).reshape(Njumps, MCsampler.supercell.crys.dim)
         param['jump_Q'] = np.zeros(Njumps)
         param['interactrange'] = np.array(MCsampler.interactrange)
     # convert from lists to arrays:
